@@ -31,7 +31,21 @@ pub fn generate(prop: &str, tier: &str, seed: u64) -> Vec<Vec<String>> {
         "C07" => flwgen::gen_c07(tier, seed),
         "C08" => flwgen::gen_c08(tier, seed),
         "C09" => flwgen::gen_c09(tier, seed),
-        "C15" => flwgen::gen_c15(tier, seed),
+        "C15" => {
+            // … and records logged from within Display (a separate path in the synchronous writer, none
+            // in the asynchronous one): the same bytes in every write mode, with LF and with CRLF
+            let mut v = flwgen::gen_c15(tier, seed);
+            for c in robust::gen_c20_recursive(tier, seed) {
+                let mut lf = c.clone();
+                lf[0] = lf[0].replacen("C20 ", "C15 lf", 1);
+                lf[1] = lf[1].replace(" crlf", "");
+                v.push(lf);
+                let mut crlf = c;
+                crlf[0] = crlf[0].replacen("C20 ", "C15 ", 1);
+                v.push(crlf);
+            }
+            v
+        }
         "C14" => flwgen::gen_c14(tier, seed),
         "C16" => flwgen::gen_c16(tier, seed),
         "C18" => flwgen::gen_c18(tier, seed),
